@@ -11,16 +11,27 @@ pub fn check_case(ctx: &Ctx, tcs: &[String], cfg: &Cfg) {
 
 pub fn blocks(thorough: bool) -> Vec<Block> {
     let neutral = lattice_all(0, G | X | E | NA | NE);
+    let n1 = lattice_le(0, G | X | E | NA | NE, 1);
+    let some: Vec<Cfg> = [0, X, G | E, NA | NE, X | G | E | NA | NE].iter().map(|b| Cfg::new(*b)).collect();
+    let d32 = "all 32 subsets of {g,x,e,na,ne}";
     let mut b = vec![];
-    b.push(Block::new(Universe::new("U_ab3{a,b}", &["a", "b"], 3, 0, false), neutral.clone(), "all 32 subsets of {g,x,e,na,ne}"));
-    b.push(Block::new(Universe::new("U_abc2{a,b,c}", &["a", "b", "c"], 2, 0, true), neutral.clone(), "all 32 subsets of {g,x,e,na,ne}"));
-    for (n, a) in [("A_meta", A_META), ("A_gc", A_GC), ("A_ws", A_WS), ("A_esc", A_ESC)] {
-        b.push(Block::new(Universe::new(&format!("U_adv({n})"), a, 2, 2, true), neutral.clone(), "all 32 subsets of {g,x,e,na,ne}"));
-    }
-    if thorough {
-        b.push(Block::new(Universe::new("U_ab4{a,b}", &["a", "b"], 4, 4, true), neutral.clone(), "all 32 subsets of {g,x,e,na,ne}"));
-        b.push(Block::new(Universe::new("U_adv(A_gc)", A_GC, 2, 3, true), lattice_le(0, G | X | E | NA | NE, 1), "<=1 of {g,x,e,na,ne}"));
-        b.push(Block::new(Universe::new("U_adv(A_meta)", A_META, 3, 2, true), lattice_le(0, G | X | E | NA | NE, 1), "<=1 of {g,x,e,na,ne}"));
+    if !thorough {
+        b.push(Block::new(Universe::new("U_ab3{a,b}", &["a", "b"], 3, 0, false), some.clone(), "{}, x, g+e, na+ne, x+g+e+na+ne"));
+        b.push(Block::new(Universe::new("U_abc2{a,b,c}", &["a", "b", "c"], 2, 3, true), neutral.clone(), d32));
+        b.push(Block::new(Universe::new("U_abc2{a,b,c}", &["a", "b", "c"], 2, 0, false), n1.clone(), "<=1 of {g,x,e,na,ne}"));
+        for (n, a) in [("A_meta", A_META), ("A_gc", A_GC), ("A_ws", A_WS), ("A_esc", A_ESC)] {
+            b.push(Block::new(Universe::new(&format!("U_adv({n})"), a, 1, 2, true), neutral.clone(), d32));
+            b.push(Block::new(Universe::new(&format!("U_adv({n})"), a, 2, 2, false), vec![Cfg::new(0), Cfg::new(X | E)], "{}, x+e"));
+        }
+    } else {
+        b.push(Block::new(Universe::new("U_ab3{a,b}", &["a", "b"], 3, 0, false), neutral.clone(), d32));
+        b.push(Block::new(Universe::new("U_abc2{a,b,c}", &["a", "b", "c"], 2, 0, true), neutral.clone(), d32));
+        for (n, a) in [("A_meta", A_META), ("A_gc", A_GC), ("A_ws", A_WS), ("A_esc", A_ESC)] {
+            b.push(Block::new(Universe::new(&format!("U_adv({n})"), a, 2, 2, true), neutral.clone(), d32));
+        }
+        b.push(Block::new(Universe::new("U_ab4{a,b}", &["a", "b"], 4, 4, false), neutral.clone(), d32));
+        b.push(Block::new(Universe::new("U_adv(A_gc)", A_GC, 2, 3, true), n1.clone(), "<=1 of {g,x,e,na,ne}"));
+        b.push(Block::new(Universe::new("U_adv(A_meta)", A_META, 3, 2, true), n1.clone(), "<=1 of {g,x,e,na,ne}"));
     }
     b
 }
